@@ -3,7 +3,7 @@
    caller" and "the same context keeps evaluating" are observed at the API boundary.
 
    usage: evalseq <items-file> [--skip N] [--heap INIT] [--max MAX] [--item-ms MS] [--probe-file F]
-   items file:   "#ITEM <id> <mode>\n" <text lines> "#END\n"     mode = eval | read | load | setup
+   items file:   "#ITEM <id> <mode>\n" <text lines> "#END\n"     mode = eval | evalscratch | read | load | setup
    output:       "#<id>\n" then one line:
                    "V <type-name>"                      a value came back
                    "E <kind> | <message>"               an exception object came back
@@ -123,8 +123,8 @@ int main (int argc, char **argv) {
   sexp_load_standard_ports(ctx, NULL, stdin, stdout, stderr, 1);
   the_ctx = ctx;
   {
-    sexp_gc_var3(res, str, port);
-    sexp_gc_preserve3(ctx, res, str, port);
+    sexp_gc_var4(res, str, port, env);
+    sexp_gc_preserve4(ctx, res, str, port, env);
     setvbuf(out, NULL, _IOLBF, 0);
     run_probe(ctx, probe, "P0");
     for (p = text; (p = strstr(p, "#ITEM ")) != NULL; ) {
@@ -156,6 +156,12 @@ int main (int argc, char **argv) {
           res = sexp_load(ctx, str, NULL);
           unlink(tmpl);
         } else res = SEXP_VOID;
+      } else if (!strcmp(mode, "evalscratch")) {
+        /* items that may define or rebind global names are evaluated in a throw-away child environment, */
+        /* so that what a *successful* definition does is not mistaken for damage done by an error      */
+        env = sexp_make_env(ctx);
+        sexp_env_parent(env) = sexp_context_env(ctx);
+        res = sexp_eval_string(ctx, body, end - body, env);
       } else {
         res = sexp_eval_string(ctx, body, end - body, NULL);
       }
@@ -171,7 +177,7 @@ int main (int argc, char **argv) {
       }
       fflush(out);
     }
-    sexp_gc_release3(ctx);
+    sexp_gc_release4(ctx);
   }
   fprintf(out, "#DONE %ld\n", idx);
   fflush(out);
